@@ -116,9 +116,7 @@ def _brute(chunk):
                           {"item": repr(item), "only_search": len(s.seen - akeys), "only_brute_force": len(akeys - s.seen)})
         if bool(verdicts) != bool(s.verdicts):
             acc.violation("harness:state-search-and-brute-force-verdicts-disagree", {"item": repr(item)})
-        for sizes, verdict in verdicts:
-            for sig, d in verdict:
-                acc.violation(*W.finish_violation(sig, d, item, n))
+        W.add_violations(acc, verdicts, item, n)
         acc.nt(repr(item))
     return acc
 
